@@ -201,7 +201,7 @@ pub const VALUE_EXPRS: &[&str] = &[
     "{ let a = 1; a }", "X { a: { 1 } + 2 }", "if let Some(a) = b { a } else { c }",
     "[1; N]", "<T as Tr>::f()", "T::default()", "T::C", "<T>::C", "Vec::<T>::new()", "vec![T::default()]",
 ];
-const TYPES: &[&str] = &[
+pub const TYPES: &[&str] = &[
     "u8", "String", "T", "U", "Vec<T>", "Option<T>", "&'a T", "&'a str", "[T; N]", "[u8; 3]",
     "(T, u8)", "()", "fn(T) -> T", "dyn A + B", "dyn A", "Box<dyn Fn(T) -> T>",
     "<T as Tr>::Assoc", "T::Assoc", "Self", "Box<Self>", "PhantomData<T>", "*const T", "!",
@@ -275,6 +275,29 @@ const ALT_ITEMS: &[&str] = &[
     "compile_error!(\"user\");",
     "compile_error!();",
     "m!();",
+    "std::thread_local! { static X: u8 = 0; }",
+    "::a::b! {}",
+    "a::b![1, 2];",
+    "a::b::c!(x);",
+    "self::m! { struct X; }",
+    "crate::m!();",
+    "m! { #[derive_ex(Clone)] struct X; }",
+    "pub(crate) fn f<T: Clone>(t: T) -> T where T: Copy { t }",
+    "async fn f() {}",
+    "const fn f() {}",
+    "unsafe extern \"C\" fn f() {}",
+    "unsafe trait Tr {}",
+    "auto trait Tr {}",
+    "pub trait Tr<T>: Clone where T: Copy { type A; const C: u8; fn f(&self) {} }",
+    "impl<T> Tr for T {}",
+    "pub use a::{b, c as d, e::*};",
+    "type A<T> = Vec<T>;",
+    "static mut S: u8 = 0;",
+    "const _: () = ();",
+    "extern \"C\" { static S: u8; type T; }",
+    "mod m { #![allow(unused)] fn f() {} }",
+    "macro_rules! m { ($a:expr) => { $a }; }",
+    "enum E<T> where T: Copy { A(T) }",
     "extern \"C\" { fn f(); }",
     "impl<T> Add for X<T> {}",
     "impl Add for X { type Output = X; fn add(self, rhs: X) -> X { self } }",
@@ -1554,7 +1577,8 @@ fn op_impl_edit(c: &mut Cand, rng: &mut Rng, _: &Pool) -> bool {
             let src = rng.pick_str(&[
 "X", "X<>", "X<u8>", "X<u8, u8>", "X<'a>", "X<&X>", "X<Self>", "X<{ 1 }>",
                 "X<&'a Self>", "X<&mut Self>", "X<dyn A + B>", "X<Output = u8>", "X<(Self, Self)>",
-                "X<&&Self>", "X(u8) -> u8", "X<[Self; 2]>", "X<T>",
+                "X<&&Self>", "X(u8) -> u8", "X<[Self; 2]>", "X<T>", "X<*const Self>", "X<*mut Self>",
+                "X<&dyn Fn() -> Self>", "X<&fn() -> Self>", "X<Box<Self>>", "X<&'a mut [Self]>",
             ]);
             let Some(p) = ps::<syn::Path>(src) else {
                 return false;
